@@ -24,6 +24,7 @@ sys.path.insert(0, os.path.join(VERIF, "harness", "C06"))
 import progs as P  # noqa: E402
 
 THEOREMS = [
+    "JanetModel.Props.C06.queue_refines_list",
     "JanetModel.Props.C06.give_blocks_iff",
     "JanetModel.Props.C06.take_blocks_iff",
     "JanetModel.Props.C06.fifo_per_channel_partial",
@@ -36,6 +37,11 @@ THEOREMS = [
     "JanetModel.Props.C06.close_wakes_stale_select_waiter",
 ]
 SOURCE_OBLIGATIONS = [
+    "JanetModel.Props.C06.chan_invariant",
+    "JanetModel.Props.C06.fifo_per_channel",
+    "JanetModel.Props.C06.no_lost_wakeup",
+    "JanetModel.Props.C06.terminates_when_matchable",
+    "JanetModel.Props.C06.noSelfMatch_needed",
     "JanetModel.Props.C06.no_lost_wakeup_partial",
     "JanetModel.Props.C06.current_source_checks",
 ]
